@@ -723,6 +723,11 @@ def cli_scan_result(code, out, err, fname):
     return {"failures": fails, "pragmas": prag, "code": code}
 
 
+DECOY = ("<!-- pyml disable-num-lines 60 md001,md003,md004,md005,md007,md009,md010,md012,md013,md018,md019,md022,md023,md025,md026,md027,"
+         "md029,md030,md031,md032,md033,md034,md036,md037,md038,md039,md040,md041,md042,md045,md046,md047,md048-->\n# decoy\n\ntext\n"
+         "<!-- pyml disable-next-line md009-->\nmore \n")
+
+
 def four_way(doc, sel, ws):
     """All entry points on one (document, selection). Returns (results dict, list of problems)."""
     for n, c in (sel.get("files") or {}).items():
@@ -738,6 +743,16 @@ def four_way(doc, sel, ws):
     R["scan_path"] = api_scan_result(r, e, p)
     if implib.read_bytes(p) != raw:
         R["scan_modified_file"] = True
+    # the same document reached through a DIRECTORY argument that also holds another file (processed first) whose pragmas name
+    # the common rules for its first 60 lines: what the API reports for doc.md must be what it reports for doc.md alone
+    dd = os.path.join(ws, "dir")
+    os.makedirs(dd, exist_ok=True)
+    implib.write(os.path.join(dd, "0decoy.md"), DECOY.encode("utf-8"))
+    pd = implib.write(os.path.join(dd, "doc.md"), raw)
+    r, e, _, _ = quiet_api(lambda: make_api(sel, ws).scan_path(dd))
+    if e is None and r is not None:
+        R["scan_dir"] = {"failures": [fmt_failure(f) for f in r.scan_failures if os.path.basename(f.scan_file) == "doc.md"],
+                         "pragmas": [f"{x.line_number}:1: INLINE: {x.pragma_error}" for x in r.pragma_errors if os.path.basename(x.file_path) == "doc.md"]}
     if not api_rejects(doc):
         r, e, _, _ = quiet_api(lambda: make_api(sel, ws).scan_string(doc))
         R["scan_string"] = api_scan_result(r, e, "in-memory")
@@ -786,6 +801,9 @@ def compare_four(doc, R):
             P.append(("scan-differs", f"pragma errors differ: file {f['pragmas']} vs {other} {o['pragmas']}"))
         if "code" in o and o["code"] != f["code"]:
             P.append(("scan-differs", f"exit code differs: file {f['code']} vs {other} {o['code']}"))
+    sd, sp = R.get("scan_dir"), R.get("scan_path")
+    if sd and sp and "error" not in sp and (sd["failures"], sd["pragmas"]) != (sp["failures"], sp["pragmas"]):
+        P.append(("scan-differs", f"scan_path(file) {sp['failures']} {sp['pragmas']} vs scan_path(directory with another file) {sd['failures']} {sd['pragmas']}"))
     a, b = R.get("scan_path"), R.get("scan_string")
     if a and b and "tuples" in a and "tuples" in b and a["tuples"] != b["tuples"]:
         P.append(("scan-differs", f"scan_path tuples {a['tuples']} != scan_string tuples {b['tuples']}"))
